@@ -14,8 +14,8 @@
     `C09_net_accessors`: the model's `degrees_of_freedom()`, `m_0()`, `stdev_obs(k)`, `wcoef_res(k)` ARE the
     regenerated `StatsGen` formulas applied to `a.defect`, `[pvv]`, `q_bb(k,k)` and the standard deviation
     `√cov(k',k')` of the k-th ACTIVE observation (`k'` its position in its cluster).
-  Not lifted: `C09_sigma_apr_scaling` (its whitening is the diagonal `σ_apr/stdev_k`; for the network it is a
-  Cholesky factor — equal for uncorrelated clusters only, not proved here).
+  `C09_sigma_apr_scaling` (whitening: the diagonal `σ_apr/stdev_k`) is lifted in `Props/C09NetScaling.lean`: for the
+  network the whitening is a block Cholesky factor, and it scales exactly (`W' = s·W`), correlated clusters included.
 -/
 import Gama.Props.C09Solvers
 import Gama.Lemmas.Ls.NetFacadeCof
